@@ -91,6 +91,36 @@ fn enumerated_histories(len: u64, k: &K, stride: u64) -> Vec<Vec<Op>> {
             t = len;
         }
     }
+    // reads that END exactly on an edge (or anywhere), then a relative seek forward / backward, then a read:
+    // state left by a read that stopped on a chunk / block edge must not leak into the seek
+    let mut ends: Vec<u64> = Vec::new();
+    let mut e = k.chunk;
+    while e <= len {
+        ends.extend([e - 1, e, e + 1]);
+        e += k.chunk;
+    }
+    ends.extend([1, len / 2, len.saturating_sub(1), len]);
+    ends.sort_unstable();
+    ends.dedup();
+    for t in ends.into_iter().filter(|t| *t <= len) {
+        for d in [1i64, 2, 17, -1, -3, k.chunk as i64, k.block as i64 - 1] {
+            let target = t as i64 + d;
+            if target < 0 || target as u64 > len {
+                continue;
+            }
+            let from = t.saturating_sub(40);
+            hs.push(vec![
+                Op::SeekStart(tgt(from, len, k)),
+                Op::Read(Sz::from_concrete(t - from, k)),
+                Op::SeekCur(tgt(target as u64, len, k)),
+                Op::Pos,
+                Op::Read(Sz::lit(9)),
+                Op::Pos,
+            ]);
+            // same, reading from the very start in two reads
+            hs.push(vec![Op::Read(Sz::from_concrete(t / 2, k)), Op::Read(Sz::from_concrete(t - t / 2, k)), Op::SeekCur(tgt(target as u64, len, k)), Op::Read(Sz::lit(9)), Op::Pos]);
+        }
+    }
     hs
 }
 
@@ -221,6 +251,12 @@ pub fn cases(ctx: &Ctx) -> Vec<Case> {
                 hs.push(vec![Op::SeekEnd(g), Op::Pos, Op::Read(Sz::lit(3)), Op::Pos]);
             }
             hs.push(random_history(&mut rng, len, &k, if ctx.quick() { 12 } else { 50 }));
+            // reads ending on chunk / block edges followed by relative seeks (edge-directed part of the enumerated patterns)
+            let eh = enumerated_histories(len, &k, len.max(1));
+            hs.extend(eh.into_iter().filter(|h| matches!(h.first(), Some(Op::SeekStart(_)) | Some(Op::Read(_))) && h.len() <= 6).filter(|h| {
+                // keep those whose first read ends on / next to a block edge
+                h.iter().any(|op| matches!(op, Op::SeekCur(Tgt::FromStart(s)) if s.b > 0 && s.c == 0 && s.d.abs() <= 20) || matches!(op, Op::SeekCur(Tgt::FromEnd(_))))
+            }));
             v.push(mk("comp", len, DataKind::Text, ctx.seed ^ len, hs.clone(), &mut rng));
             v.push(mk("both", len, DataKind::Random, ctx.seed ^ len ^ 0xB0, hs, &mut rng));
         }
